@@ -76,9 +76,12 @@ var _ = strings.HasPrefix
 //@ requires p != nil
 //@ modifies p.err
 
+// the internal name of a character literal is the fixed prefix followed by the literal itself, unchanged: two different
+// literals never share a name (the token, identifier and symbol tables are all keyed by it), and RemoveTempName gives the
+// literal back
 //@ func genTempName
-//@ trusted name mangling for character literals
-//@ props C11
+//@ props C11 C12 C04 C07
+//@ ensures [C11,C12,C04,C07] result == "$operator" + in
 //@ modifies nothing
 
 //@ func (*parser).parseTokendef
